@@ -1,5 +1,5 @@
 """property id -> (spec, harness group)"""
-from . import props_alg, props_alias, props_lin, props_est, props_eig, props_sim, props_tm, props_rand, props_text
+from . import props_alg, props_alias, props_lin, props_est, props_eig, props_sim, props_tm, props_rand, props_text, props_cli
 
 SPECS = {}
 for pid, spec in props_alg.SPECS.items():
@@ -20,4 +20,6 @@ for pid, spec in props_rand.SPECS.items():
     SPECS[pid] = (spec, props_rand.GROUP)
 for pid, spec in props_text.SPECS.items():
     SPECS[pid] = (spec, props_text.GROUP)
+for pid, spec in props_cli.SPECS.items():
+    SPECS[pid] = (spec, props_cli.GROUP)
 NOT_CLAIMED = {}
